@@ -525,7 +525,10 @@ class Merge(Expr):
             for col in left.columns:
                 if col in left_on or col in projection:
                     project_left.append(col)
-                elif f"{col}{left_suffix}" in projection:
+                # not exclusive: a key column of this side can also be requested
+                # under its suffixed name when the other side has a column of
+                # the same name that is not its key
+                if f"{col}{left_suffix}" in projection:
                     project_left.append(col)
                     if col in right.columns:
                         # Right column must be present
@@ -536,7 +539,7 @@ class Merge(Expr):
             for col in right.columns:
                 if col in right_on or col in projection:
                     project_right.append(col)
-                elif f"{col}{right_suffix}" in projection:
+                if f"{col}{right_suffix}" in projection:
                     project_right.append(col)
                     if col in left.columns and col not in project_left:
                         # Left column must be present
